@@ -6,9 +6,9 @@
  *           1 empty   2 add(5)   3 add(16) (full chain)   4 add(3)+reference(4)   5 add(20) (two chains)
  *           6 add(5)+drain(2) (misaligned)   7 reference(4)+add(3)
  *           8 sendfile chain(6 bytes at file offset 4)+add(3)      9 add(3)+sendfile chain(6)
- *   harness_read   final = evbuffer_read(buf, fd, howmuch): howmuch, the FIONREAD answer and the count the read
- *           system call returns are case-split (concrete inside each case, the case is solver-chosen: DESIGN 3.4),
- *           max_read = 24; errno and the bytes are symbolic.
+ *   harness_read   final = evbuffer_read(buf, fd, howmuch): howmuch and the FIONREAD answer are case-split
+ *           (concrete inside each case, the case is solver-chosen: DESIGN 3.4), max_read = 24; the read result,
+ *           errno and the bytes are symbolic.
  *   harness_write  final = evbuffer_write_atmost(buf, fd, howmuch) (howmuch == -1: evbuffer_write), howmuch and
  *           the count the write system call accepts case-split, errno symbolic.
  * Oracle: byte-string model (ref/bytes.h): read appends exactly the returned bytes; write removes exactly the
@@ -121,21 +121,19 @@ static const int HM[] = { -1, 0, 1, 5, 12, 17, 30 };
 static const int FR[] = { -1, 0, 3, 20, 5000 };      /* -1: ioctl fails */
 void harness_read(void)
 {
-	unsigned a, b; int hm, fr, r; long rr; size_t n, eff, i, old;
-	unsigned pa = (unsigned)vp_range(0, 6), pb = (unsigned)vp_range(0, 4); long pr = (long)vp_range(0, VP_MAXREAD + 1) - 1;
+	unsigned a, b; int hm, fr, r; size_t n, eff, i, old;
+	unsigned pa = (unsigned)vp_range(0, 6), pb = (unsigned)vp_range(0, 4);
 	build();
 	compare("prefix");
 	vp_bytes(vp_io_in, VP_MAXREAD + 1);
 	old = M.len;
-	for (a = 0; a < 7; a++) for (b = 0; b < 5; b++) for (rr = -1; rr <= VP_MAXREAD; rr++) {
-		if (pa != a || pb != b || pr != rr) continue;
+	for (a = 0; a < 7; a++) for (b = 0; b < 5; b++) {
+		if (pa != a || pb != b) continue;
 		hm = HM[a]; fr = FR[b];
-		vp_io_force = rr;                     /* the read system call's result: this case's value (-1: error, errno symbolic) */
 		vp_io_fionread_rc = fr < 0 ? -1 : 0; vp_io_fionread = fr;
 		/* what evbuffer_read may ask the kernel for: documented = min(howmuch, max_read, bytes readable) */
 		n = (fr <= 0 || fr > VP_MAXREAD) ? VP_MAXREAD : (size_t)fr;
 		eff = (hm < 0 || (size_t)hm > n) ? n : (size_t)hm;
-		if (rr > (long)eff) { __CPROVER_assume(0); }      /* not a result the kernel can give for this request */
 		vp_io_limit = eff;
 		r = evbuffer_read(B, VP_FD, hm);
 		VP_ASSERT(vp_io_calls <= 1, "C16: evbuffer_read issued more than one read system call");
